@@ -257,10 +257,16 @@ def recip(p):
     if p.is_const():
         return Poly.const(Fraction(1) / Fraction(p.const_value()))
     # pull out a scalar factor so that c*q and q share one atom
+    # pull out a scalar factor of a single-term argument so that c*q and q share one atom; otherwise only the sign
     if len(p.t) == 1:
         (m, c), = p.t.items()
         if c != 1:
             return recip(Poly({m: 1})) * _norm(Fraction(1) / Fraction(c))
+    lead = min(p.t)
+    if p.t[lead] < 0:
+        q = -p
+        i = CTX.atom("recip", q.key(), q)
+        return Poly({(i,): -1})
     i = CTX.atom("recip", p.key(), p)
     return Poly({(i,): 1})
 
@@ -292,13 +298,33 @@ def define(p, threshold):
     if threshold is None or len(p.t) <= threshold:
         return p
     lead = min(p.t)
-    c = p.t[lead]
-    if c != 1:
-        inv = _norm(Fraction(1) / Fraction(c))
-        q = Poly({m: _norm(v * inv) for m, v in p.t.items()})
-    else:
-        q = p
+    neg = p.t[lead] < 0
+    q = -p if neg else p
     i = CTX.atom("def", q.key(), q)
+    r = Poly({(i,): 1})
+    return -r if neg else r
+
+
+def maxsel(cands):
+    """The value whose comparator is the strict maximum among cands = [(comparator Poly, value Poly)].
+    Order-independent by construction (canonical key = sorted pairs): this builds in the precondition that the maximum
+    is attained exactly once.  Axioms (refined query only): (AND_{j!=i} cmp_j < cmp_i) => atom = value_i."""
+    cands = [(as_poly(t), as_poly(v)) for t, v in cands]
+    if all(v.t == cands[0][1].t for _, v in cands):
+        return cands[0][1]
+    # selection is linear in the values: factor out a common SIGN so that maxsel{(t_i, -v_i)} = -maxsel{(t_i, v_i)} share
+    # one atom (sign of the leading coefficient of the value attached to the smallest comparator key); magnitudes are not
+    # normalised: dividing by leading coefficients makes exact rationals grow with network depth
+    by_tag = sorted(cands, key=lambda tv: tv[0].key())
+    c = 1
+    for _, v in by_tag:
+        if v.t:
+            c = 1 if v.t[min(v.t)] > 0 else -1
+            break
+    if c != 1:
+        cands = [(t, -v) for t, v in cands]
+    srt = sorted(cands, key=lambda tv: (tv[0].key(), tv[1].key()))
+    i = CTX.atom("maxsel", tuple((t.key(), v.key()) for t, v in srt), tuple(srt))
     r = Poly({(i,): 1})
     return r if c == 1 else r * c
 
@@ -488,16 +514,21 @@ def bor(*xs):
 class Cases:
     """A symbolic integer: mutually exclusive, exhaustive guarded cases [(BoolE, int)]."""
 
-    __slots__ = ("cases",)
+    __slots__ = ("cases", "tags")
 
-    def __init__(self, cases):
+    def __init__(self, cases, tags=None):
+        """tags (optional, parallel to cases): for an argmax result, tags[j] is the comparator whose being the strict
+        maximum selects case j (used to build order-independent `maxsel` atoms)."""
         merged = {}
+        n_in = 0
         for c, v in cases:
+            n_in += 1
             if c.op == "false":
                 continue
             v = int(v)
             merged[v] = bor(merged[v], c) if v in merged else c
         self.cases = tuple((c, v) for v, c in merged.items())
+        self.tags = tuple(tags) if (tags is not None and len(self.cases) == n_in == len(tags)) else None
 
     @staticmethod
     def const(v):
@@ -507,12 +538,18 @@ class Cases:
         return len(self.cases) == 1 and self.cases[0][0].op == "true"
 
     def map(self, f):
-        return Cases([(c, f(v)) for c, v in self.cases])
+        return Cases([(c, f(v)) for c, v in self.cases], self.tags)
 
     def map2(self, other, f):
         if not isinstance(other, Cases):
             o = int(other)
             return self.map(lambda v: f(v, o))
+        if other.is_const():
+            o = other.cases[0][1]
+            return self.map(lambda v: f(v, o))
+        if self.is_const():
+            o = self.cases[0][1]
+            return other.map(lambda v: f(o, v))
         return Cases([(band(c1, c2), f(v1, v2)) for c1, v1 in self.cases for c2, v2 in other.cases])
 
     def pred(self, f):
@@ -547,6 +584,10 @@ def select_cases(c, a, b):
     """ite on symbolic ints."""
     a = a if isinstance(a, Cases) else Cases.const(a)
     b = b if isinstance(b, Cases) else Cases.const(b)
+    if c.op == "true":
+        return a
+    if c.op == "false":
+        return b
     return Cases([(band(c, ca), va) for ca, va in a.cases] + [(band(bnot(c), cb), vb) for cb, vb in b.cases])
 
 
@@ -605,6 +646,32 @@ def var_array(name, shape):
     return Sym(a, "real")
 
 
+ABSTRACT_FLOATS = False  # lift "ugly" float constants met by the interpreter to abstract constant atoms
+CONST_VALUES = {}  # name -> Fraction, for abstracted numeric constants (see abstract_constants)
+
+
+def abstract_constants(x, prefix="K"):
+    """Lift a concrete float array to a Sym array in which every distinct non-zero magnitude is one atom (sign kept
+    explicit, zeros kept zero).  The defining equations atom = value are axioms of the refined query only: an `unsat` of
+    the abstract query therefore holds for EVERY array with the same pattern of equal magnitudes and signs, in particular
+    for the given one.  Keeps exact rational coefficients from growing with network depth."""
+    x = np.asarray(x)
+    a = np.empty(x.shape, dtype=object)
+    flat = a.reshape(-1)
+    xf = x.reshape(-1)
+    for i in range(flat.size):
+        v = float(xf[i])
+        if v == 0.0:
+            flat[i] = ZERO
+            continue
+        mag = Fraction(abs(v))
+        name = f"{prefix}_{mag.numerator}_{mag.denominator}"
+        CONST_VALUES[name] = mag
+        p = CTX.var(name)
+        flat[i] = p if v > 0 else -p
+    return Sym(a, "real")
+
+
 def const_array(x, kind=None):
     """Lift a concrete array to a Sym array of constants."""
     x = np.asarray(x)
@@ -619,7 +686,14 @@ def const_array(x, kind=None):
             v = xf[i].item()
             p = cache.get(v)
             if p is None:
-                if isinstance(v, float) and not math.isfinite(v):
+                if ABSTRACT_FLOATS and isinstance(v, float) and math.isfinite(v) and v != 0.0 and Fraction(v).denominator > 4096:
+                    # non-dyadic-looking float constant (eps, activation constants, ...): one atom per magnitude, value as a
+                    # refinement axiom (see abstract_constants)
+                    mag = Fraction(abs(v))
+                    name = f"K_{mag.numerator}_{mag.denominator}"
+                    CONST_VALUES[name] = mag
+                    p = CTX.var(name) if v > 0 else -CTX.var(name)
+                elif isinstance(v, float) and not math.isfinite(v):
                     # nan / inf constants (e.g. the unreachable branch of a where): an unconstrained atom, so an
                     # obligation it reaches cannot be discharged silently
                     p = CTX.var("NONFINITE")
